@@ -6,6 +6,10 @@ import os, re, subprocess, tempfile, shutil
 ROOT = os.path.dirname(os.path.dirname(os.path.abspath(__file__)))
 # (property, unit regex, clause regex) -> scenarios to try, in order
 TABLE = [
+    ("C03", r"dispatch_R", r"first_output|handler", ["first_step_sign_and_overshoot"]),
+    ("C11", r"dispatch_R", r"first_output|handler", ["first_step_sign_and_overshoot"]),
+    ("C03", r"solout_R", r"steps\.", ["short_steps_reported", "first_step_sign_and_overshoot"]),
+    ("C18", r"solout_R", r"steps\.", ["short_steps_reported"]),
     ("C03", r"rk4_R", r"span\.|support", ["rk4_overshoot"]),
     ("C03", r".*_R", r"span\.|hinit|support", ["span_hinit_probe", "rk4_overshoot"]),
     ("C11", r".*_R", r"step\.|hinit", ["step_bounds"]),
